@@ -274,6 +274,7 @@ pub const POINTS: &[&str] = &[
     "ttl.before_update",
     "ttl.before_enqueue",
     "range.entry",
+    "read.before_pin",
     "read.pinned",
     "read.pinned.unlocked",
     "read.before_pread",
